@@ -21,14 +21,15 @@ class C01(GuardedBase):
                   P('%s,%s/%s,%s/%s' % (XT, LS, XT, LS, XT), 1, 1, 400), P('%s/%s/%s;0' % (X, S, S), 2, 2, 400),
                   P('%s/%s,14/%s;0/3;13' % (XT, ST, ST), 2, 3, 500), P('%s/%s/%s' % (XT, ST, ST), 3, 3, 400),
                   P('11;11/12,5,8/12,6,9;11/10', 4, 3, 500), P('11/12,8/9;11', 4, 0, 300), P('11,15;11,15/15;12/5,16;9', 4, 3, 400, maxthrows=1), P('15;15/11;15/12', 4, 1, 300, maxthrows=1), P('11;11/11;12/9,10', 4, 2, 300),
-                  P('0;0/0/13;3', 0, 1, 400, 'pct')],
+                  P('0;0/0/13;3', 0, 1, 400, 'pct'), P('0/1/9', 0, 0, 2500, 'pb2'), P('11/12/9', 4, 3, 2500, 'pb1'), P('0/5/3', 2, 3, 2500, 'pb1')],
         'thorough': [P('%s,%s/%s,%s/%s;%s' % (X, LS, X, LS, X, LS), 0, 0, 12000), P('%s,%s/%s,%s/0,2;9' % (XT, LS, XT, LS), 0, 1, 12000),
                      P('%s,%s/%s,%s/%s' % (XT, LS, XT, LS, XT), 1, 1, 10000), P('%s/%s/%s;0' % (X, S, S), 2, 2, 10000),
                      P('%s/%s,14/%s;0/3;13' % (XT, ST, ST), 2, 3, 12000), P('%s/%s/%s' % (XT, ST, ST), 3, 3, 10000),
                      P('%s/%s/%s' % (X, S, S), 3, 0, 8000), P('%s,%s/%s/%s' % (XT, LS, XT, XT), 1, 1, 8000),
                      P('11;11/12,5,8/12,6,9;11/10', 4, 3, 12000), P('11/12,8/9;11', 4, 0, 8000), P('11,15;11,15/15;12/5,16;9', 4, 3, 10000, maxthrows=1), P('15;15/11;15/12', 4, 1, 8000, maxthrows=2), P('11;11/11;12/9,10', 4, 2, 8000),
                      P('11;11/12;12/9;8', 4, 1, 8000), P('0;0/0/13;3', 0, 1, 10000, 'pct'),
-                     P('0;1;2;3/4;13;0;1/8;9;10;0/2;2', 0, 1, 12000)],
+                     P('0;1;2;3/4;13;0;1/8;9;10;0/2;2', 0, 1, 12000), P('0/1/9', 0, 0, 300000, 'pb3'), P('11/12/9', 4, 3, 300000, 'pb2'), P('0/5/3', 2, 3, 300000, 'pb2'),
+                     P('0;4/2;8/10', 0, 1, 300000, 'pb2')],
     }
     assumptions = ['bounded: TLC results are for the thread/operation counts named in the configs',
                    'payload accesses are two-step windows of the harness Cell; an update by thread t maps v to 8v+t',
